@@ -13,7 +13,7 @@
 //                         <id>/s <the SAX2 events Xerces delivered for the same text, as B tokens>
 //   <id> O <enc> <bs> <writes>   XalanTransformerOutputStream with setBufferSize(bs); enc = u16 | loc;
 //                         w|units c|unit n|bytes f ; prints <id> <hex bytes of callback 1> ... F<flush calls>
-//   <id> T <seed> <hex stylesheet> <hex source> <params: - or name=hexexpr,...> [flags: u = the stylesheet uses its base URI]
+//   <id> T <seed> <hex stylesheet> <hex source> <params: - or name=hexexpr,...> [flags: u = the stylesheet uses its base URI, x = xml output method (tree targets are compared)]
 //                         runs the same transformation through every form; prints
 //                         <id>/ref ok <hex bytes> | err <rc>        (stream source, stylesheet source, std::ostream)
 //                         <id>/treeref ok <hex canonical dump of the parsed reference bytes> | err
@@ -719,7 +719,7 @@ static void report(const Case& c, const std::string& form, const Result& r, cons
     else std::cout << "ok " << hexs(r.data) << "\n";
 }
 
-static void mode_T(Case& c, bool usesBaseURI)
+static void mode_T(Case& c, bool usesBaseURI, bool xmlMethod)
 {
     const bool nulFree = false;
     { std::ofstream f(c.srcPath.c_str(), std::ios::binary); f << c.src; }
@@ -728,7 +728,7 @@ static void mode_T(Case& c, bool usesBaseURI)
     if (ref.rc == 0) std::cout << c.id << "/ref ok " << hexs(ref.data) << "\n";
     else std::cout << c.id << "/ref err " << ref.rc << " " << hexs(ref.msg) << "\n";
     bool treeOk = false; std::string treeref;
-    if (ref.rc == 0) treeref = tree_of_bytes(ref.data, treeOk);
+    if (ref.rc == 0 && xmlMethod) treeref = tree_of_bytes(ref.data, treeOk);   // html / text serialisation is not the tree (indentation, no escaping)
     std::cout << c.id << "/treeref " << (treeOk ? "ok " + hexs(treeref) : std::string("err")) << "\n";
     unsigned rot = c.seed;
     // every source form x stylesheet form, to a std::ostream
@@ -790,7 +790,7 @@ int main(int argc, char** argv)
                 }
                 c.srcPath = dir + "/main.xml"; c.sheetPath = dir + "/main.xsl";
                 c.srcURL = "file://" + c.srcPath; c.sheetURL = "file://" + c.sheetPath;
-                mode_T(c, toks.size() > 6 && toks[6].find('u') != std::string::npos);
+                mode_T(c, toks.size() > 6 && toks[6].find('u') != std::string::npos, toks.size() > 6 && toks[6].find('x') != std::string::npos);
             }
         }
         catch (...) { std::cout << id << " EXC\n"; }
